@@ -256,3 +256,77 @@ def discover_rebound(prog: Program, configs: List[Config], max_rounds=4):
             return forget, rnd + 1
         forget = new
     return forget, max_rounds
+
+
+class SimWorld(World):
+    """The simulator-specific re-implementation (_RadiusSimulator / _KNearestSimulator / _LSHSimulator) built the
+    way Simulator._train_bandits builds it: the constructor call expression found in that method is evaluated
+    with `imp` bound to the library implementor of the configuration."""
+
+    SIM_CLASS = {"Radius": "_RadiusSimulator", "KNearest": "_KNearestSimulator", "LSHNearest": "_LSHSimulator"}
+
+    def __init__(self, prog: Program, config: Config, forget=None, is_quick=None):
+        self.is_quick = is_quick
+        super().__init__(prog, config, forget)
+
+    def _build(self):
+        super()._build()
+        e, prog = self.eng, self.prog
+        want = self.SIM_CLASS.get(self.config.np)
+        if want is None:
+            raise AnalysisError("no simulator wrapper for %s" % self.config.np)
+        tb = prog.method("Simulator", "_train_bandits")
+        call = None
+        for n in ast.walk(tb.node):
+            if isinstance(n, ast.Assign) and isinstance(n.value, ast.Call) and \
+                    isinstance(n.value.func, ast.Name) and n.value.func.id == want:
+                call = n
+        if call is None:
+            raise AnalysisError("Simulator._train_bandits no longer constructs %s" % want)
+        self.ctor_call = call
+        e.heap = self.init_heap.copy()
+        e.epoch += 1
+        sim = e.alloc("Simulator", "caller", None, label="Simulator", key="sim-stub")
+        qv = Val(deps=[("param", "is_quick")]) if self.is_quick is None else Val(const=self.is_quick)
+        sim.fields["is_quick"] = qv
+        env = {"self": Val(refs=[sim.oid]), "imp": self.init_heap.objs[self.mab_oid].fields["_imp"],
+               "mab": Val(refs=[self.mab_oid])}
+        root = Ev("seq")
+        e.out = root.children
+        e.frames = [Frame(tb, prog.cls("Simulator"), env)]
+        e.guards, e.loops, e.callstack = (), (), ()
+        wrapper = e.eval(call.value)
+        self.sim_init_trace = root
+        root.a["entry"] = want + ".__init__"
+        root.a["config"] = self.config.name
+        self.wrapper = wrapper
+        for r in wrapper.refs:
+            for oid in self.reachable(r):
+                if e.obj(oid).region == "fresh":
+                    e.mobj(oid).region = "bandit"
+        root.a["heap"] = e.heap.copy()
+        self.skeleton = e.heap.copy()
+        self.init_heap = e.heap.copy()
+        self.sim_oid = next(iter(wrapper.refs))
+        self._apply_forget_from(self.sim_oid)
+
+    def _apply_forget_from(self, oid):
+        saved = self.mab_oid
+        self.mab_oid = oid
+        try:
+            self._apply_forget()
+        finally:
+            self.mab_oid = saved
+
+    def imp_val(self) -> Val:
+        return self.wrapper
+
+    def run(self, method, args=None, on="SIM", keep_heap=False, recv=None):
+        return super().run(method, args, on="SIM", keep_heap=keep_heap, recv=self.wrapper)
+
+    def standard_entries(self):
+        out = [("fit", "fit", self.data_args(True)), ("partial_fit", "partial_fit", self.data_args(True)),
+               ("predict", "predict", {"contexts": self.caller_obj("contexts", None)}),
+               ("predict_expectations", "predict_expectations", {"contexts": self.caller_obj("contexts", None)}),
+               ("calculate_distances", "calculate_distances", {"contexts": self.caller_obj("contexts", None)})]
+        return out
